@@ -4,7 +4,7 @@
    The full statement is REFUTED on that tree (open finding
    "sparse-index-entry-before-offset+maxbytes-le-distance"); it is proved on the
    complement of the finding's input class. *)
-From KS Require Import lib.Base model.ReadPath proofs.ReadPathProofs.
+From KS Require Import lib.Base model.ReadPath proofs.ReadPathProofs proofs.ReadPathFloor.
 Open Scope Z_scope.
 
 (* The property: for every history, index interval, cache state, fetch offset o at or
@@ -61,6 +61,22 @@ Proof.
   exact (read_ok start l cached o max (inv_run start ops _ Hv (inv_init iv rq start)) Hex).
 Qed.
 Print Assumptions C04_read_succeeds.
+
+(* findIndexEntry (as fixed by fixes/C04-find-index-entry-floor.patch) returns the
+   FLOOR entry: on every reachable log, in the segment that serves the offset, the
+   entry Read starts from is an index entry at or below the (snapped) offset and no
+   other entry at or below the offset is greater.  So [entry_distance] above is the
+   distance from the true floor entry, and is 0 whenever the index has an entry at
+   the batch holding the offset. *)
+Theorem C04_entry_is_floor : forall iv rq start ops o s o',
+  Forall valid_op ops ->
+  let l := run (init_log iv rq start) ops in
+  find_segment (l_segs l) o = Some (s, o') ->
+  let e := find_entry (s_entries s) o' in
+  In e (s_entries s) /\ ie_off e <= o' /\
+  forall e', In e' (s_entries s) -> ie_off e' <= o' -> ie_off e' <= ie_off e.
+Proof. exact read_entry_is_floor. Qed.
+Print Assumptions C04_entry_is_floor.
 
 (* The defect fixed by fixes/C04-find-index-entry-floor.patch: HEAD's binary search
    (`mid+1 <= hi`) falls through to entries[0]; the fixed one returns the floor entry. *)
